@@ -382,6 +382,10 @@ class _KafkaBrokerClient(ClientFactory):
     def _sendQueued(self):
         """Connection just came up, send the unsent requests."""
         for tReq in list(self.requests.values()):  # must copy, may del
+            if self.requests.get(tReq.correlationId) is not tReq:
+                # A callback of a request sent earlier in this loop cancelled
+                # this one, or closed us: it must not be sent anymore.
+                continue
             if tReq.sent is None:
                 self._sendRequest(tReq)
 
